@@ -3450,7 +3450,10 @@ def rule_F33(prog):
                     problems.append("the id counter `%s` starts from `%s`, not from Default::default()" % (pl, io[:60]))
         r.ob(not problems, "%s: one map, one counter: %s" % (fn.path, problems or "ok"))
         if problems:
-            r.find(fn.path, "id-counter", "IdentifyDistinct::new: " + "; ".join(problems), file=fn.file, line=fn.line)
+            # no counter in the function body at all (the interning moved into a helper type or function): the rule has no
+            # anchor here -- undecided, not a violation
+            lost = (not incs) and len(maps) <= 1
+            r.find(fn.path, "id-counter", "IdentifyDistinct::new: " + "; ".join(problems), file=fn.file, line=fn.line, undecided=lost)
     return r
 
 
